@@ -303,7 +303,10 @@ func genC12(seed uint64, part string) *Scenario {
 
 func genC11(seed uint64, part string) *Scenario {
 	r := common.NewRng(seed)
-	sc := &Scenario{Fam: "C11/" + part, Seed: seed, Q: -1, Width: 100, Policy: r.PickS("none", "light", "heavy")}
+	sc := &Scenario{Fam: "C11/" + part, Seed: seed, Q: -1, Width: 100, Policy: r.PickS("none", "light", "heavy", "barop")}
+	if sc.Policy == "barop" {
+		sc.Policy, sc.Target = "targeted", "bar.op"
+	}
 	sc.Mode = r.PickS("auto", "auto", "manual", "none")
 	sc.RefreshUS = r.Pick(50, 200, 1000)
 	sc.End = r.PickS("natural", "natural", "cancel", "shutdown")
